@@ -115,6 +115,18 @@ def parse_alphabet():
         PARSED[k] = Burst.from_bytes(raw, burst_type=bt)
 
 
+class _BrokenStdout(io.StringIO):
+    """hostile-environment pass: the process's standard output cannot be written (closed pipe): whatever the tracker wants to
+    print there, processing a burst must not fail because of it"""
+
+    def write(self, _s):
+        raise BrokenPipeError(32, "Broken pipe")
+
+
+def _stdout_for_the_library():
+    return _BrokenStdout() if env.HOSTILE else io.StringIO()
+
+
 RBUF = bytearray(33)
 
 
@@ -354,7 +366,7 @@ class Tracker(explore.System):
         other_before = repr(canon(other, skip=SKIP, rename=rename_tokens))
         raised = None
         out = None
-        buf = io.StringIO()
+        buf = _stdout_for_the_library()
         try:
             with contextlib.redirect_stdout(buf):
                 out = self.term.process_incoming_burst(burst, ts)
@@ -460,7 +472,7 @@ class WatcherSys(explore.System):
         for r in [self.rec_a, self.rec_b] + list(self.slot_rec.values()):
             r.events = []
         case = {"event": [name, tg]}
-        buf = io.StringIO()
+        buf = _stdout_for_the_library()
         if name == "END_ALL":
             raised = None
             try:
